@@ -8,6 +8,7 @@ package mcp
 
 import (
 	"bufio"
+	"bytes"
 	"context"
 	"encoding/json"
 	"fmt"
@@ -314,13 +315,24 @@ func (t *stdioClientTransport) readLoop() {
 		}
 	}()
 
+	reader := bufio.NewReader(t.stdout)
 	for !t.closed.Load() {
-		var rawMessage json.RawMessage
-		if err := t.decoder.Decode(&rawMessage); err != nil {
-			if err == io.EOF || t.closed.Load() {
+		line, readErr := reader.ReadBytes('\n')
+		if readErr != nil && len(line) == 0 {
+			break
+		}
+		if len(bytes.TrimSpace(line)) == 0 {
+			if readErr != nil {
 				break
 			}
+			continue
+		}
+		var rawMessage json.RawMessage
+		if err := json.Unmarshal(line, &rawMessage); err != nil {
 			t.logger.Errorf("Error reading message: %v", err)
+			if readErr != nil {
+				break
+			}
 			continue
 		}
 
